@@ -8,6 +8,12 @@
 (* vnadata_fload of the file (Load, FLoad) and the comparison of the       *)
 (* loaded object with the file and with the original values (LoadCmp).     *)
 (*                                                                         *)
+(* In half of the episodes (twin = 1) cksave, save and fsave each run on    *)
+(* their own, identically built object, so that save and fsave are also     *)
+(* exercised on an object vnadata_cksave has not touched (cksave resolves   *)
+(* and stores the file type).  Frequency precision (fprec) and data         *)
+(* precision (prec) vary independently.                                     *)
+(*                                                                         *)
 (* Verdicts, file type, parameter list, field counts, loadable types,      *)
 (* dimensions and which values must be exact are computed here from        *)
 (* FileFmt; the numeric observations (freqOK, z0OK, valsOK, denotes,       *)
@@ -106,7 +112,7 @@ TSave3 ==
             Chk(ev.objSame = 1, <<l, "Save3", "objSame", 1>>)
           >>)
        /\ cur' = [phase |-> IF ev.sv.ok = 1 THEN "saved" ELSE "refused",
-                  cfg |-> c, v |-> v, prec |-> ev.prec]
+                  cfg |-> c, v |-> v, prec |-> ev.prec, fprec |-> ev.fprec]
        /\ ld' = NoCfg
 
 (* the independent reader's findings on the bytes vnadata_save wrote *)
@@ -169,7 +175,8 @@ TLoadCmp ==
     LET ev == TraceLog[l]
         c  == cur.cfg
         must == cur.v.v = "accept" /\ LoadableTypes(EffFmts(c)) # {}
-        max  == cur.prec = "MAX"
+        max  == cur.prec = "MAX"          \* data precision (dprecision)
+        fmax == cur.fprec = "MAX"         \* frequency precision (fprecision)
     IN /\ ev.e = "LoadCmp"
        /\ ld.phase = "loaded" /\ ev.which = ld.which
        /\ nbad' = nbad + SumChecks(<<
@@ -180,7 +187,7 @@ TLoadCmp ==
             \* ... and at maximum precision equals the original: exactly where
             \* the values are stored directly, to rounding where the format
             \* prescribes a normalisation (Touchstone 1 Z, Y, H, G)
-            Chk((must /\ max) => ev.exactFreq = 1, <<l, "LoadCmp", "exactFreq", 1>>),
+            Chk((must /\ fmax) => ev.exactFreq = 1, <<l, "LoadCmp", "exactFreq", 1>>),
             Chk((must /\ max) => ev.exactZ0 = 1, <<l, "LoadCmp", "exactZ0", 1>>),
             Chk((must /\ max /\ StoredDirectly(c, ld.type)) => ev.exactData = 1,
                   <<l, "LoadCmp", "exactData", 1>>),
